@@ -19,6 +19,7 @@ import OnlVerif.Net.DRROnKReplay
 import OnlVerif.Tcp.SenderOnKReplay
 import OnlVerif.Net.VCOnKReplay
 import OnlVerif.Net.WFQOnKReplay
+import OnlVerif.Net.NetworkReplay
 /-! Line-protocol driver: `driver <mode>` reads cases on stdin and prints the model's observations. -/
 
 def main (args : List String) : IO UInt32 := do
@@ -46,4 +47,5 @@ def main (args : List String) : IO UInt32 := do
   | ["sndk"] => sndkLoop stdin; return 0
   | ["vck"] => vckLoop stdin; return 0
   | ["wfqk"] => wfqkLoop stdin; return 0
+  | ["net"] => netLoop stdin; return 0
   | _ => IO.eprintln "usage: driver <kernel|fifo|gensink|timer|rt|…>"; return 2
